@@ -319,12 +319,9 @@ fn validate_checksum(data: &[u8], expected_checksum: &str) -> Result<()> {
 /// This function performs a quick check to determine if the response
 /// uses V1 MIME format based on content type headers.
 pub fn is_v1_mime_response(raw_response: &[u8]) -> bool {
-    let response_str = String::from_utf8_lossy(raw_response);
-    let first_512 = if response_str.len() > 512 {
-        &response_str[..512]
-    } else {
-        &response_str
-    };
+    // Cut the raw bytes, not the decoded string: byte 512 of the string may fall
+    // inside a multi-byte character.
+    let first_512 = String::from_utf8_lossy(&raw_response[..raw_response.len().min(512)]);
 
     // Look for MIME headers indicating multipart content
     first_512.to_lowercase().contains("content-type:")
@@ -345,6 +342,19 @@ mod tests {
         let v2_response =
             b"Region!STRING:0|BuildConfig!HEX:16|CDNConfig!HEX:16\r\nus|abc123|def456\r\n";
         assert!(!is_v1_mime_response(v2_response));
+    }
+
+    #[test]
+    fn test_is_v1_mime_response_multibyte_character_at_byte_512() {
+        // 'é' occupies bytes 511..513
+        let mut response = vec![b'a'; 511];
+        response.extend_from_slice("é and more".as_bytes());
+        assert!(!is_v1_mime_response(&response));
+
+        // An invalid byte decodes to the three-byte U+FFFD
+        let mut response = vec![b'a'; 510];
+        response.extend_from_slice(b"\xff and more");
+        assert!(!is_v1_mime_response(&response));
     }
 
     #[test]
